@@ -161,7 +161,10 @@ def main():
                     del queue[:]
                     rest = []
                 if rest:
-                    queue.append(rest)
+                    # failing cases cluster (neighbouring cases share their inputs): hand the remainder out in small pieces
+                    # so that the other children share the watchdog periods instead of one child serving them in a row
+                    for k2 in range(len(rest), 0, -4):
+                        queue.append(rest[max(0, k2 - 4):k2])
                 children[k] = Child(ctx, mod)
                 assign(children[k])
     for ch in children:
